@@ -104,24 +104,38 @@ def missing_edges(sx, B):
 
 @condition("C10.warnings",
            anchors=["polyply.src.gen_itp:gen_params", "polyply.src.graph_utils:find_missing_edges"],
-           rejects=(), selector_only=True, must_cover=["warned", "silent"],
+           rejects=(), selector_only=True, must_cover=["warned", "silent", "json ring", "json star"],
            outside=["sequences longer than the bound"],
-           bounds={"quick": dict(nmax=3), "thorough": dict(nmax=4)},
+           bounds={"quick": dict(nmax=4), "thorough": dict(nmax=5)},
            budget={"quick": 200, "thorough": 900})
 def warnings_(sx, B):
-    """Real gen_params on generated input files (-seq over two residue types, links only between some name pairs): the captured
-    missing-link warnings name exactly the consecutive residue pairs that have no bond/constraint between them in the written .itp."""
-    n = int(sx.int("n", 2, B["nmax"]))
+    """Real gen_params on generated input files (-seq, or a .json residue graph that is a ring or a star, over two residue types;
+    links only between some name pairs): the captured missing-link warnings name exactly the connected residue pairs that have no
+    bond/constraint between them in the written .itp - also when the atoms stay connected around a ring."""
+    shape = sx.sel("input", ["seq", "json ring", "json star"])
+    n = int(sx.int("n", 2 if shape == "seq" else 3, B["nmax"]))
     names = [sx.sel("res%d" % i, ["A", "B"]) for i in range(n)]
+    edges = {"seq": [(i, i + 1) for i in range(n - 1)], "json ring": [(i, (i + 1) % n) for i in range(n)],
+             "json star": [(0, i) for i in range(1, n)]}[shape]
     d = tempfile.mkdtemp(prefix="pverif_", dir=os.environ.get("TMPDIR"))
     try:
         ffp = Path(d) / "in.ff"
         ffp.write_text(FF)
         out = Path(d) / "out.itp"
+        kw = {}
+        if shape == "seq":
+            kw["seq"] = ["%s:1" % x for x in names]
+        else:
+            import json
+            g = {"directed": False, "multigraph": False, "graph": {}, "nodes": [{"id": i, "resname": names[i], "resid": i + 1} for i in range(n)],
+                 "links": [{"source": a, "target": b} for a, b in edges], "edges": [{"source": a, "target": b} for a, b in edges]}
+            (Path(d) / "seq.json").write_text(json.dumps(g))
+            kw["seq_file"] = Path(d) / "seq.json"
+            sx.cover(shape)
         with capture_logs("polyply") as records:
             logging.getLogger("polyply").setLevel(logging.WARNING)
             with patched(al, tqdm=_Tqdm):
-                gen_itp.gen_params(name="mol", outpath=out, inpath=[ffp], seq=["%s:1" % x for x in names])
+                gen_itp.gen_params(name="mol", outpath=out, inpath=[ffp], **kw)
         text = out.read_text()
     finally:
         shutil.rmtree(d, ignore_errors=True)
@@ -141,7 +155,7 @@ def warnings_(sx, B):
             a, b = atoms_res[int(tok[0])], atoms_res[int(tok[1])]
             if a != b:
                 bonded.add(frozenset((a, b)))
-    want = sorted((i + 1, i + 2) for i in range(n - 1) if frozenset((i + 1, i + 2)) not in bonded)
+    want = sorted((min(a, b) + 1, max(a, b) + 1) for a, b in edges if frozenset((a + 1, b + 1)) not in bonded)
     got = []
     for r in records:
         msg = str(r.getMessage()) if not hasattr(r.msg, "format") else None
@@ -195,3 +209,93 @@ def connectivity_gate(sx, B):
     sx.cover("accepted")
     sx.claim(not any_disconnected, "a molecule whose atoms are not all connected is refused",
              lambda: "layout %r with %s missing bond %d accepted" % (layout, broken, which))
+
+
+
+from harness.ffgen import multi_res_block, block_text_itp, simple_block, block_text_ff    # noqa: E402
+
+
+@condition("C10.fragments",
+           anchors=["polyply.src.graph_utils:find_missing_edges"],
+           rejects=(), selector_only=True, must_cover=["junction missing", "junction linked"],
+           stubs=["apply_links.tqdm -> plain iteration"],
+           bounds={"quick": dict(), "thorough": dict()})
+def fragments(sx, B):
+    """Real MapToMolecule + ApplyLinks + find_missing_edges on two consecutive copies of a two-residue block (from_itp), optionally
+    followed by a regular residue, with and without a link that joins the copies: the junction between the copies is reported
+    exactly when no atom-level edge joins it, although both residues carry the same from_itp label."""
+    link = sx.sel("junction_link", [False, True])
+    tail = sx.sel("regular_residue_after", [False, True])
+    mspec = multi_res_block("MUL")
+    texts = [("itp", block_text_itp(mspec)), ("ff", block_text_ff(simple_block("A", 1)))]
+    if link:
+        texts.append(("ff", '[ link ]\nresname "MB|MA"\n[ bonds ]\nm3 {"resname": "MB"} +m1 {"resname": "MA"} 1 0.4 400\n'))
+    ff = parse_ff(texts)
+    names = ["MA", "MB", "MA", "MB"] + (["A"] if tail else [])
+    n = len(names)
+    fi = {i: ("MUL" if i < 4 else None) for i in range(n)}
+    meta = residue_graph(n, [(i, i + 1) for i in range(n - 1)], names, [i + 1 for i in range(n)], from_itp=fi, ff=ff)
+    MapToMolecule(ff).run_molecule(meta)
+    with patched(al, tqdm=_Tqdm):
+        ApplyLinks().run_molecule(meta)
+    mol = meta.molecule
+    resid_of = {a: mol.nodes[a]["resid"] for a in mol.nodes}
+    joined = set(frozenset((resid_of[a], resid_of[b])) for a, b in mol.edges if resid_of[a] != resid_of[b])
+    want = sorted(sorted((i + 1, i + 2)) for i in range(n - 1) if frozenset((i + 1, i + 2)) not in joined)
+    got = sorted(sorted((m["idxA"], m["idxB"])) for m in find_missing_edges(meta, mol))
+    sx.cover("junction linked" if frozenset((2, 3)) in joined else "junction missing")
+    sx.claim(got == want, "the junction between two copies of a multi-residue block is reported exactly when nothing joins it",
+             lambda: "link %r: reported %r expected %r" % (link, got, want))
+
+
+FF_REMOVE = """[ moleculetype ]
+A 1
+[ atoms ]
+1 TA 1 A BB 1 0.0 1.0
+2 TS 1 A SC 2 0.0 1.0
+[ bonds ]
+BB SC 1 0.30 100
+[ moleculetype ]
+B 1
+[ atoms ]
+1 TB 1 B BB 1 0.0 1.0
+[ link ]
+resname "A"
+[ bonds ]
+BB +BB 1 0.40 400
+[ link ]
+resname "A"
+[ atoms ]
+SC {"replace": {"atomname": null}}
+BB {}
+[ non-edges ]
+BB +BB
+"""
+
+
+@condition("C10.after_removal",
+           anchors=["polyply.src.graph_utils:find_missing_edges", "polyply.src.apply_links:ApplyLinks.run_molecule"],
+           rejects=(), selector_only=True, must_cover=["atom removed and link missing"],
+           stubs=["apply_links.tqdm -> plain iteration"],
+           bounds={"quick": dict(nmax=4), "thorough": dict(nmax=5)})
+def after_removal(sx, B):
+    """As C10.missing_edges for a force field whose chain-end link removes an atom: residue pairs that are connected in the residue
+    graph but have no link (A next to B) are still reported after the residue graph was rebuilt for the removed atoms."""
+    n = int(sx.int("n", 2, B["nmax"]))
+    names = [sx.sel("res%d" % i, ["A", "B"]) for i in range(n)]
+    ff = parse_ff([("ff", FF_REMOVE)])
+    edges = [(i, i + 1) for i in range(n - 1)]
+    meta = residue_graph(n, edges, names, [i + 1 for i in range(n)], ff=ff)
+    MapToMolecule(ff).run_molecule(meta)
+    natoms = len(meta.molecule.nodes)
+    with patched(al, tqdm=_Tqdm):
+        ApplyLinks().run_molecule(meta)
+    mol = meta.molecule
+    resid_of = {a: mol.nodes[a]["resid"] for a in mol.nodes}
+    joined = set(frozenset((resid_of[a], resid_of[b])) for a, b in mol.edges if resid_of[a] != resid_of[b])
+    want = sorted(sorted((a + 1, b + 1)) for a, b in edges if frozenset((a + 1, b + 1)) not in joined)
+    got = sorted(sorted((m["idxA"], m["idxB"])) for m in find_missing_edges(meta, mol))
+    if len(mol.nodes) < natoms and want:
+        sx.cover("atom removed and link missing")
+    sx.claim(got == want, "connected residue pairs without an atom-level edge are reported also after a link removed atoms",
+             lambda: "residues %r: reported %r expected %r" % (names, got, want))
